@@ -27,4 +27,39 @@ PROPS = {
                 "at least one transaction and returned with quantity remaining; distinct = distinct op list",
         "assumptions": ["ids unique among resting orders; sums below 2^63 (the property's quantifier)"],
     },
+    "C01": {
+        "engines": ["seq", "seq0"],
+        "footprint": {"state": ["vis", "hid", "cnt", "list"]},
+        "nontrivial": r"^match txs=\[[^\]]+\]",
+        "rule": "E-seq (positive quantities) and E-seq0 (zero quantities allowed): random histories (1-40 ops, thorough 1-120) of "
+                "add/match/cancel/price-move/amend/replace/read over all seven order kinds, ids from a pool of 3-7, then three draining "
+                "matches; aggregates and listing observed after every op; non-trivial = the history contains a match that executed; distinct = distinct op list",
+        "assumptions": ["ids unique among resting orders; price*quantity sums below 2^63 (the property's quantifier)"],
+    },
+    "C02": {
+        "engines": ["seq", "seq0", "pure"],
+        "footprint": {"match": "*", "atx": "*"},
+        "nontrivial": r"^match txs=\[[^\]]*,[^\]]*\]|^atx \d+:\d+ \d",
+        "rule": "E-seq/E-seq0 histories as for C01, every match result compared field by field and judged by C02.ok on the real "
+                "MatchResult (accounting, transaction fields, id freshness, filled list, per-maker ledger); E-pure add_transaction sequences; "
+                "non-trivial = a match with at least two transactions, or an add_transaction sequence of length >= 2",
+        "assumptions": ["as C01; transaction ids are mapped back to counter values through v5(namespace, k) computed by the harness"],
+    },
+    "C07": {
+        "engines": ["seq", "seq0"],
+        "footprint": {"upd": "*", "state": ["vis", "hid", "cnt", "list"], "add": "*", "match": "*", "read": "*"},
+        "nontrivial": r"^upd ok=[A-Z]",
+        "rule": "E-seq/E-seq0 histories with all five update kinds x present/absent ids x equal/different price and read-only calls "
+                "(snapshot, package, JSON, Display, serde, statistics, listing, aggregates) inserted at random points; every update judged "
+                "by C07.ok against the listing before and after; non-trivial = the history contains an update that found its order",
+        "assumptions": ["as C01"],
+    },
+    "C15": {
+        "engines": ["seq", "seq0"],
+        "footprint": {"state": ["stats"]},
+        "nontrivial": r"^match txs=\[[^\]]+\]",
+        "rule": "E-seq/E-seq0 histories; the four counters compared after every op and judged by C15.ok against the events the harness "
+                "counted from the calls' return values; non-trivial = the history contains a match that executed",
+        "assumptions": ["every order carries the level's price (what an order book guarantees); sequential half only so far"],
+    },
 }
